@@ -110,6 +110,7 @@ func (ctx *CallContext) OpenSession(state any, ttl time.Duration) error {
 	if err != nil {
 		return err
 	}
+	verifAt("sticky.open.registered", sink.registry, sid)
 	aad := stateTokenAad(sink.auth)
 	token, sealErr := sealSessionToken(sink.tokenKey, sink.serverID, sid, expiresAt.Unix(), aad, 0)
 	if sealErr != nil {
